@@ -267,7 +267,8 @@ func RuleDWriteLast(c *core.Ctx) {
 					case *ssa.MakeInterface:
 						bad = "an error built at " + p.Pos(core.NearPos(ret)) + " is returned after output was written"
 					case *ssa.UnOp:
-						// named result: judged where it is assigned
+						// named result: judged where it is assigned; or the error a writer
+						// wrapper remembers (a field of an object that carries the writer)
 					default:
 						bad = "an error built at " + p.Pos(core.NearPos(ret)) + " is returned after output was written"
 					}
